@@ -11,7 +11,7 @@
              variant index as a number), then the variant's struct visitor: known key or alias -> field (twice
              = error), unknown keys ignored, missing field -> default if `default`, None if Option, else error.
    Numbers are decimal token atoms; serde_json's float printing is not modelled (see props/C03.json). *)
-From RipV Require Import Base.Prelude Base.Json.
+From RipV Require Import Base.Prelude Base.Json Base.JsonParse.
 From Coq Require Import DecimalN DecimalPos Decimal.
 
 (* ---------- decimal integers (itoa / serde_json integer parsing) ---------- *)
@@ -646,14 +646,109 @@ Definition wf_schema (s : schema) : bool :=
   && negb (s_default_guard s)
   && match s_default_kind s with KUnknown => false | _ => true end.
 
+(* ---------- text forms: one log / sidecar line, one snapshot file ----------
+   EventLog::append and the sidecar writer: serde_json::to_string(event) + "\n";
+   write_snapshot: serde_json::to_writer_pretty(&[Event]); readers: serde_json::from_str / from_reader. *)
+Definition write_line (s : schema) (e : event) : str := Json.print (encode_event s e).
+
+Definition read_line (s : schema) (txt : str) : option event :=
+  match parse txt with
+  | Some j => decode_event s j
+  | None => None
+  end.
+
+Definition write_snapshot (s : schema) (es : list event) : str :=
+  print_pretty (JArr (map (encode_event s) es)).
+
+Definition read_snapshot (s : schema) (txt : str) : option (list event) :=
+  match parse txt with
+  | Some (JArr l) => map_opt (decode_event s) l
+  | _ => None
+  end.
+
+(* values a Rust frame can hold: Strings are sequences of Unicode scalar values, number tokens inside a
+   serde_json::Value are JSON numbers *)
+Fixpoint txt_ok (t : ty) (v : value) : bool :=
+  match t, v with
+  | TStr, VStr s => str_ok s
+  | TVal, VVal j => json_ok j
+  | TOpt t', VOpt (Some v') => txt_ok t' v'
+  | TVec t', VVec l => forallb (txt_ok t') l
+  | TStruct fs, VStruct vs =>
+    (fix xf (fs : list field) (vs : list value) : bool :=
+       match fs, vs with
+       | (m, t) :: fs', v :: vs' => txt_ok t v && xf fs' vs'
+       | _, _ => true
+       end) fs vs
+  | _, _ => true
+  end.
+
+Fixpoint txt_ok_fields (fs : list field) (vs : list value) : bool :=
+  match fs, vs with
+  | (m, t) :: fs', v :: vs' => txt_ok t v && txt_ok_fields fs' vs'
+  | _, _ => true
+  end.
+
+Definition txt_event (s : schema) (e : event) : bool :=
+  str_ok (e_id e) && str_ok (e_sid e) &&
+  match nth_error (s_variants s) (e_var e) with
+  | Some v => txt_ok_fields (vfields v) (e_fields e)
+  | None => true
+  end.
+
+(* a frame the system can hold in memory *)
+Definition frame_ok (s : schema) (e : event) : bool := wt_event s e && txt_event s e.
+
+(* nesting of the written document stays under serde_json's recursion limit *)
+Definition depth_ok (s : schema) (e : event) : bool := Nat.ltb (json_depth (encode_event s e)) 128.
+Definition snapshot_depth_ok (s : schema) (e : event) : bool := Nat.ltb (json_depth (encode_event s e)) 127.
+
+Definition kind_code_of (k : skind) : N :=
+  match k with KSession => 0 | KTask => 1 | KContinuity => 2 | KArtifact => 3 | KUnknown => 99 end.
+
+(* ---------- the sinks of one emitted frame ----------
+   continuities.rs (append paths) and session.rs (emit_event): the SAME Event value is (1) appended to
+   events.jsonl, (2) appended to the per-stream sidecar, (3) pushed to the per-session buffer that becomes the
+   snapshot, (4) sent on the broadcast channel.  Streams are keyed by (stream kind, stream id). *)
+Record sinks := { k_log : list str; k_sidecar : list (N * str * str); k_buffer : list event; k_live : list event }.
+Definition sinks0 : sinks := {| k_log := []; k_sidecar := []; k_buffer := []; k_live := [] |}.
+
+Definition stream_key (s : schema) (e : event) : N * str := (kind_code_of (event_kind s e), e_sid e).
+
+Definition key_eqb (a b : N * str) : bool := (fst a =? fst b) && str_eqb (snd a) (snd b).
+
+Definition emit (s : schema) (k : sinks) (e : event) : sinks :=
+  let line := write_line s e in
+  {| k_log := k_log k ++ [line];
+     k_sidecar := k_sidecar k ++ [(fst (stream_key s e), snd (stream_key s e), line)];
+     k_buffer := k_buffer k ++ [e];
+     k_live := k_live k ++ [e] |}.
+
+Definition run_emits (s : schema) (es : list event) : sinks := fold_left (emit s) es sinks0.
+
+(* the four views of one stream *)
+Definition of_stream (s : schema) (key : N * str) (es : list event) : list event :=
+  filter (fun e => key_eqb (stream_key s e) key) es.
+
+Definition view_live (s : schema) (key : N * str) (k : sinks) : list event := of_stream s key (k_live k).
+
+Definition view_log (s : schema) (key : N * str) (k : sinks) : option (list event) :=
+  option_map (of_stream s key) (map_opt (read_line s) (k_log k)).
+
+Definition view_sidecar (s : schema) (key : N * str) (k : sinks) : option (list event) :=
+  map_opt (read_line s)
+    (map (fun x => snd x) (filter (fun x => key_eqb (fst (fst x), snd (fst x)) key) (k_sidecar k))).
+
+Definition view_snapshot (s : schema) (key : N * str) (k : sinks) : option (list event) :=
+  read_snapshot s (write_snapshot s (of_stream s key (k_buffer k))).
+
 (* ---------- correspondence cases (harness/src/bin/c03.rs) ----------
    A case is one JSON document (as AST, numbers as token atoms) plus what the real crates did with it:
      c_impl_ok   : serde_json::from_str::<Event> succeeded
      c_impl_re   : the re-serialised frame (AST), when it succeeded
      c_impl_kind : 0 session / 1 task / 2 continuity / 3 artifact of the read-back frame
    and the schema in force is the generated one (passed by the case file). *)
-Definition kind_code (k : skind) : N :=
-  match k with KSession => 0 | KTask => 1 | KContinuity => 2 | KArtifact => 3 | KUnknown => 99 end.
+Definition kind_code : skind -> N := kind_code_of.
 
 Record case := {
   c_doc : json;
